@@ -74,6 +74,8 @@ def run(ctx):
         f, b = gen.det_prog(rng)
         if len(f) == 1:
             progs.append([l for l in f[0][1].split("\n") if l.strip()])
+    for _ in range(60 * k):          # interrupt handlers (uret hands back every register: the 'all registers' table is a class table too)
+        progs.append([l for l in gen.handler_prog(rng).split("\n") if l.strip()])
     progs = [[l for l in p if not l.strip().startswith((".", "#"))] for p in progs]
     cases = []
     for p in progs:
